@@ -8,28 +8,28 @@ import sys
 VERIF = "/verif"
 sys.path.insert(0, VERIF)
 
-TECH = "static analysis: custom rules over rustc's pre-borrowck MIR (rustc_private fact extractor + Python analyses over a normalised view of each function - virtual inlining, closure / combinator / iterator-pipeline expansion, jump threading - : CFG dominance/post-dominance and control dependence, origin-set dataflow, decision-table path enumeration, result-flow, who-may-call, panic-site and loop-variant census)"
+TECH = "static analysis: custom rules over rustc's pre-borrowck MIR (rustc_private fact extractor + Python analyses over a normalised view of each function - virtual inlining, closure / combinator / iterator-pipeline expansion, jump threading - : CFG dominance/post-dominance and control dependence, origin-set dataflow, decision-table path enumeration, case analysis by path-sensitive constant propagation, symbolic length accounting, unit (char/byte) analysis, result-flow, who-may-call, panic-site and loop-variant census)"
 
 CLAIMS = {
-    "C01": ("other", "4.C01", "Coordinate / unit / ordering discipline of drift detection decided on every path: LineChange lines in new-file coordinates (origin sets), monotone predicates of every ordered search (finite-model evaluation of the closures' MIR), FIFO use and per-hunk flush of the deleted-line queue, char->byte conversion of intra-line diff indices, is_content_modified guards, (file,name) key shapes with own-file fallback, push iff missing, no state leaking between files, single strip of `b/`, no swallowed Result. Necessary conditions; position arithmetic and the unidiff parser are not decided. One known finding (deletions recorded at old-file lines). Also: the per-block selection closure is stateless and tests every block against the file's complete change list; every file section of the diff contributes its changes unless unidiff reports the file as removed; complete traversals (no truncating adaptor over files / hunks / lines)."),
-    "C02": ("other", "4.C02", "Block filter's complete truth table (closure MIR evaluated on all 8 valuations), filter mode per call site, diff-entry consumption only after the allow/ignore decision, complete reader set of the diff flags (non-interference) plus no carried state in the six per-block validators, sibling agreement of the two span intersections, should_scan / default-glob table, shared search / unit / coordinate rules. Boundary arithmetic is not decided. Also: inclusive vs half-open position ranges are compared with the matching operator and no half-open range is built from an inclusive end; the default `**` glob is installed only when the merged glob set from Args::globs() is empty and the run is interactive."),
-    "C03": ("other", "4.C03", "Structural necessary conditions only: compared node kinds exist in the pinned grammars' node-types.json and every comment-like kind is handled or excepted; length-preserving delimiter blanking; same-ends content ranges; complete (row, byte, first-row column) rebasing of nested Markdown HTML comments; sorted / merged block order. What each generated grammar reports as a comment is NOT decided. Also: each grammar module builds its parser from its own language's grammar constant; a tag's column inside a multi-line comment is measured from the last newline; the tree walk offers every node to the comment visitor (unconditional descent, queries from the root, no kind-guarded hand recursion)."),
-    "C04": ("other", "4.C04", "Census with discharge table: every panic-capable site of blockwatch's own reachable code (enumerated from MIR) is auto-safe or carries a one-line discharge; every loop has a termination variant; the call graph is acyclic; exit only in the report. Not a proof of termination; dependencies are not analysed."),
-    "C06": ("other", "4.C06", "keep-sorted control skeleton: direction table (exhaustive), comparator per format and argument order, adjacency, first-violation-wins, key provenance, no carried state, no swallowed error. Decides these structural necessary conditions on all paths, not the verdict on a concrete key sequence."),
-    "C07": ("other", "4.C07", "keep-unique control skeleton: push iff !seen.insert(key), every key inserted, per-block set/regex, first duplicate leaves the loop, key provenance. Structural part only."),
-    "C08": ("other", "4.C08", "line-pattern control skeleton: is_match(line.trim()), blank/matching lines continue, push iff !is_match, first failure leaves the loop, pattern = attribute text compiled before the loop. Structural part only."),
-    "C09": ("other", "4.C09", "line-count operator tables decided exhaustively (5 operators x parse/compare/print), push polarity, provenance of count, bound and diagnostic data."),
-    "C10": ("other", "4.C10", "provenance of the four numbers of every reported range for all seven validators (content start + enumerate index / pointer offset / Match::range; start_tag_position_range.{start,end}); last-newline based tag column. Not the arithmetic. Also: nested (Markdown HTML) comment positions are rebased by row and, on the first row only, by column; the content's start column is applied exactly on content line index 0."),
-    "C11": ("other", "4.C11", "exit/report skeleton (single exit(1) under a sticky Error flag over all diagnostics, one JSON document to stderr, list to stdout), complete severity tables, severity provenance, append-only merging, exactly-once validator detection, no swallowed Result reachable from main. Also: the list report appends exactly one entry per selected block to the list it returns (no keyed / lossy container)."),
-    "C12": ("other", "4.C12", "unmatched end tag / leftover start tag lead only to Err; LIFO stack; all parser impls use the pairing function; error carries the file path; return-without-parse only for unknown grammar; tag scanner stops only at the exact end; no swallowed Result. Also: the comment traversal is complete and no touched, non-removed file section of the diff is skipped."),
-    "C13": ("other", "4.C13", "fail-closed mechanism: result-flow over every Result-producing call reachable from main (no swallowed Err incl. both levels of every join), presence of the 26 Err-producing branches / propagated fallible calls the named malformations rely on, numeric ordering only from parsed numbers. Value-level notion of 'malformed' is not decided. Also: the lazy detection loop asks every pending detector about every block (a malformed rule can only be reported if its validator is created)."),
+    "C01": ("other", "4.C01", "Coordinate / unit / ordering discipline of drift detection decided on every path: LineChange lines in new-file coordinates (origin sets), monotone predicates of every ordered search (finite-model evaluation of the closures' MIR), FIFO use and per-hunk flush of the deleted-line queue, char->byte conversion of intra-line diff indices, is_content_modified guards, (file,name) key shapes with own-file fallback, push iff missing, no state leaking between files, single strip of `b/`, no swallowed Result. Necessary conditions; position arithmetic and the unidiff parser are not decided. One known finding (deletions recorded at old-file lines). Also: the per-block selection closure is stateless and tests every block against the file's complete change list; every file section of the diff contributes its changes unless unidiff reports the file as removed; complete traversals (no truncating adaptor over files / hunks / lines). Also (unit analysis): no value counted in characters (count/position/enumerate over chars()) is used as a bound of a str slice or added to a byte quantity. The filter mode per parser call site and append-only merging are shared in."),
+    "C02": ("other", "4.C02", "Block filter's complete truth table (closure MIR evaluated on all 8 valuations), filter mode per call site, diff-entry consumption only after the allow/ignore decision, complete reader set of the diff flags (non-interference) plus no carried state in the six per-block validators, sibling agreement of the two span intersections, should_scan / default-glob table, shared search / unit / coordinate rules. Boundary arithmetic is not decided. Also: inclusive vs half-open position ranges are compared with the matching operator and no half-open range is built from an inclusive end; the default `**` glob is installed only when the merged glob set from Args::globs() is empty and the run is interactive. Also (unit analysis): no value counted in characters (count/position/enumerate over chars()) is used as a bound of a str slice or added to a byte quantity. A tag's column on a continuation line is measured from the last newline (shared)."),
+    "C03": ("other", "4.C03", "Structural necessary conditions only: compared node kinds exist in the pinned grammars' node-types.json and every comment-like kind is handled or excepted; length-preserving delimiter blanking; same-ends content ranges; complete (row, byte, first-row column) rebasing of nested Markdown HTML comments; sorted / merged block order. What each generated grammar reports as a comment is NOT decided. Also: each grammar module builds its parser from its own language's grammar constant; a tag's column inside a multi-line comment is measured from the last newline; the tree walk offers every node to the comment visitor (unconditional descent, queries from the root, no kind-guarded hand recursion). Also (unit analysis): no value counted in characters (count/position/enumerate over chars()) is used as a bound of a str slice or added to a byte quantity. Length preservation of the hand-written comment normalisers is a symbolic proof obligation (sum of pushed piece lengths = len(text) on every returning path)."),
+    "C04": ("other", "4.C04", "Census with discharge table: every panic-capable site of blockwatch's own reachable code (enumerated from MIR) is auto-safe or carries a one-line discharge; every loop has a termination variant; the call graph is acyclic; exit only in the report. Not a proof of termination; dependencies are not analysed. Also (unit analysis): no value counted in characters (count/position/enumerate over chars()) is used as a bound of a str slice or added to a byte quantity."),
+    "C06": ("other", "4.C06", "keep-sorted control skeleton: direction table (exhaustive), comparator per format and argument order, adjacency, first-violation-wins, key provenance, no carried state, no swallowed error. Decides these structural necessary conditions on all paths, not the verdict on a concrete key sequence. The direction table is decided by case analysis over the normalised validator (4 value classes x 3 comparator answers), the neighbour pairs by a second case analysis (8 key patterns of 3 lines); the reported line derives from the content's start line plus the enumerate index; the validator never reads the modification flags; the lazy detection loop asks every pending detector about every block."),
+    "C07": ("other", "4.C07", "keep-unique control skeleton: push iff !seen.insert(key), every key inserted, per-block set/regex, first duplicate leaves the loop, key provenance. Structural part only. Also: the reported line derives from the content's start line plus the enumerate index; the validator never reads the modification flags; complete detection loop."),
+    "C08": ("other", "4.C08", "line-pattern control skeleton: is_match(line.trim()), blank/matching lines continue, push iff !is_match, first failure leaves the loop, pattern = attribute text compiled before the loop. Structural part only. Also: the reported line derives from the content's start line plus the enumerate index (not from the start tag's position); the validator never reads the modification flags; complete detection loop."),
+    "C09": ("other", "4.C09", "line-count operator tables decided exhaustively (5 operators x parse/compare/print), push polarity, provenance of count, bound and diagnostic data. Also: the validator never reads the modification flags; complete detection loop."),
+    "C10": ("other", "4.C10", "provenance of the four numbers of every reported range for all seven validators (content start + enumerate index / pointer offset / Match::range; start_tag_position_range.{start,end}); last-newline based tag column. Not the arithmetic. Also: nested (Markdown HTML) comment positions are rebased by row and, on the first row only, by column; the content's start column is applied exactly on content line index 0. Also (unit analysis): no value counted in characters (count/position/enumerate over chars()) is used as a bound of a str slice or added to a byte quantity."),
+    "C11": ("other", "4.C11", "exit/report skeleton (single exit(1) under a sticky Error flag over all diagnostics, one JSON document to stderr, list to stdout), complete severity tables, severity provenance, append-only merging, exactly-once validator detection, no swallowed Result reachable from main. Also: the list report appends exactly one entry per selected block to the list it returns (no keyed / lossy container). Also: once the blocks are parsed every Ok return of main passes the list writer or validators::run (no early Ok); in the report function each violation appends exactly one value to a list (no keyed / de-duplicating container)."),
+    "C12": ("other", "4.C12", "unmatched end tag / leftover start tag lead only to Err; LIFO stack; all parser impls use the pairing function; error carries the file path; return-without-parse only for unknown grammar; tag scanner stops only at the exact end; no swallowed Result. Also: the comment traversal is complete and no touched, non-removed file section of the diff is skipped. Also: a diff entry removed from the change map is parsed on every path that stays in the scan loop; the directory walk drops an entry only when Path::is_dir() holds (symbolic links to files stay files)."),
+    "C13": ("other", "4.C13", "fail-closed mechanism: result-flow over every Result-producing call reachable from main (no swallowed Err incl. both levels of every join), presence of the 26 Err-producing branches / propagated fallible calls the named malformations rely on, numeric ordering only from parsed numbers. Value-level notion of 'malformed' is not decided. Also: the lazy detection loop asks every pending detector about every block (a malformed rule can only be reported if its validator is created). Also: the unknown-direction row of keep-sorted's direction table by case analysis; a fresh Lua interpreter per script run (a script without `validate` cannot call another script's)."),
     "C14": ("other", "4.C14", "name = attribute key = diagnostic code for the 7 validators (21 cells); detector filter's complete decision table; -d/-e set flow; exact-membership flag validation; both-flags rejection dominating everything; lose-nothing/duplicate-nothing detection loop. Also: the command line is parsed with clap's exiting parser (or a fallible one whose Err is returned); -d/-e are single-value accumulating options; no Result is dropped in main / flags / the validator driver; per-file diagnostics are merged append-only."),
-    "C15": ("other", "4.C15", "ignore (and allow) guards in front of every file-parser call on the same path; predicate/field/flag wiring of the two glob sets; diff entries consumed only after the allow/ignore decision; single `b/` strip; root discovery and use; std::fs confined to the file-system role, root discovery and the Lua loader; standard walker filters untouched. Glob and walker semantics are not decided. Also: Args::globs() compiles the positional and the `list` globs together, the `no globs` test is made on that merged set, and `--ignore` takes exactly one value per use while the positional globs take one or more."),
-    "C16": ("other", "4.C16", "complete suffix->module table and each module's grammar constant (exhaustive over 39 keys / 23 modules); findability and shadowing of every key under the code's lookup order (table computation); untransformed candidate suffix; user mapping dominates built-in lookups; read/parse dominated by a successful lookup; -E values validated against the table's keys before parsing. Also: Args::validate cannot return Ok without having examined every -E mapping, and it dominates parsing in every mode."),
+    "C15": ("other", "4.C15", "ignore (and allow) guards in front of every file-parser call on the same path; predicate/field/flag wiring of the two glob sets; diff entries consumed only after the allow/ignore decision; single `b/` strip; root discovery and use; std::fs confined to the file-system role, root discovery and the Lua loader; standard walker filters untouched. Glob and walker semantics are not decided. Also: Args::globs() compiles the positional and the `list` globs together, the `no globs` test is made on that merged set, and `--ignore` takes exactly one value per use while the positional globs take one or more. Also: the pattern handed to Glob::new is the user's text unchanged; removed diff entries are parsed; the walk drops directories only; every non-removed file section of the diff contributes its entry."),
+    "C16": ("other", "4.C16", "complete suffix->module table and each module's grammar constant (exhaustive over 39 keys / 23 modules); findability and shadowing of every key under the code's lookup order (table computation); untransformed candidate suffix; user mapping dominates built-in lookups; read/parse dominated by a successful lookup; -E values validated against the table's keys before parsing. Also: Args::validate cannot return Ok without having examined every -E mapping, and it dominates parsing in every mode. Also: the lookup candidate derives from Path::file_name (not from the whole path); single `b/` strip of diff paths (shared)."),
     "C17": ("proof", "4.C17", "Complete static derivation over a finite registration graph: the interpreter factory's MIR is partially evaluated on every equivalence class of BLOCKWATCH_LUA_MODE; constructor / flags / removed globals are pushed through the library map and luaL_Reg tables read from the pinned mlua and Lua 5.4 sources; obligations are set inclusions on the derived global-name sets; Lua::new* only in the factory, one interpreter per script run."),
-    "C18": ("other", "4.C18", "check-lua structure: spawn / call multiplicities, provenance of ctx fields, attrs entries and both arguments, result table over mlua::Value's variants, every joined result reaches the diagnostics map and the join loop ends only on exhaustion or Err, content selection, no swallowed Result, fresh interpreter per run. mlua marshalling and scheduling are not decided. Also: `validate` is called with the dynamically typed result type (no mlua coercion of numbers into strings)."),
-    "C19": ("other", "4.C19", "check-ai structure: task / request multiplicities, environment variables -> client configuration -> request, empty-key Err dominating the request, Display-only user message, complete reply table, collection of every joined result, content selection, no swallowed Result in client, task and collector. HTTP client fault mapping is dependency behaviour and not decided. Also: key and base URL overrides are applied on every path to the client's construction (async-openai's defaults read ambient OPENAI_* variables)."),
-    "C20": ("other", "4.C20", "absence of order-, time- and location-sensitive constructs: loops over hash-based iteration / join_next (exits, keyed inserts, overwritten outer variables), order-sensitive selection, ambient sources, environment and current_dir uses, parser calls without previous tree, sorted outputs, per-block isolation, one interpreter per run, append-only merging."),
+    "C18": ("other", "4.C18", "check-lua structure: spawn / call multiplicities, provenance of ctx fields, attrs entries and both arguments, result table over mlua::Value's variants, every joined result reaches the diagnostics map and the join loop ends only on exhaustion or Err, content selection, no swallowed Result, fresh interpreter per run. mlua marshalling and scheduling are not decided. Also: `validate` is called with the dynamically typed result type (no mlua coercion of numbers into strings). Also: the validator never reads the modification flags; complete detection loop; task arguments are resolved through an async fn's parameters as well as through an async block's captures."),
+    "C19": ("other", "4.C19", "check-ai structure: task / request multiplicities, environment variables -> client configuration -> request, empty-key Err dominating the request, Display-only user message, complete reply table, collection of every joined result, content selection, no swallowed Result in client, task and collector. HTTP client fault mapping is dependency behaviour and not decided. Also: key and base URL overrides are applied on every path to the client's construction (async-openai's defaults read ambient OPENAI_* variables). Also: the validator never reads the modification flags; complete detection loop."),
+    "C20": ("other", "4.C20", "absence of order-, time- and location-sensitive constructs: loops over hash-based iteration / join_next (exits, keyed inserts, overwritten outer variables), order-sensitive selection, ambient sources, environment and current_dir uses, parser calls without previous tree, sorted outputs, per-block isolation, one interpreter per run, append-only merging. Also: the lazy detection loop asks every pending detector about every block (which validators exist must not depend on hash order)."),
 }
 
 NOT_YET = {
